@@ -529,7 +529,7 @@ pub fn run_case(sc: &Scenario, mode: &Mode) -> CaseOut {
         let nontrivial = match mode.prop {
             "C01" => clean && !tainted && skipped_outputs >= 1 && n_exec >= 1 && i > 0,
             "C02" => res.on_demand > 0,
-            "C03" => !tainted && !skipped.is_empty() && (edge_mix.0 || prev_unclean || (i > 0 && !step.edits.is_empty())),
+            "C03" => !skipped.is_empty() && (edge_mix.0 || prev_unclean || (i > 0 && !step.edits.is_empty())),
             "C04" => !tainted && ((n_exec >= 1 && skipped.iter().any(|j| !model.map(|m| m.useless.contains(*j)).unwrap_or(false))) || model.map(|m| m.shielded > 0).unwrap_or(false)),
             "C05" => res.max_concurrency >= 2 || !res.failed.is_empty() || plan.sched.ack_mode != 0,
             "C06" => res.failed.iter().any(|j| h_in.contains_key(j)) || prev_unclean,
